@@ -38,6 +38,7 @@ Proof.
   - destruct (0 <? n_plateau c)%Z; simpl; [|reflexivity].
     destruct (n_plateau c =? 1)%Z eqn:E1; [reflexivity|].
     destruct (n_plateau c - 1 =? 0)%Z eqn:E2; [apply Z.eqb_eq in E2; apply Z.eqb_neq in E1; lia|].
+    destruct (n_ann c / (n_plateau c - 1) <? 1)%Z; [reflexivity|].
     destruct (Qle_bool _ 0); reflexivity.
 Qed.
 
